@@ -11,9 +11,11 @@ import c02_universe as U
 import impl
 import lib
 import jsontie
+import capstonetie
 
 COQ_TARGETS = ["theories/Proofs/CodecLemmas.vo", "theories/Model/CodecEq.vo"]
 COQ_TARGETS = COQ_TARGETS + [t for t in jsontie.COQ_TARGETS if t not in COQ_TARGETS]
+COQ_TARGETS = COQ_TARGETS + [t for t in capstonetie.COQ_TARGETS if t not in COQ_TARGETS]
 THEOREMS = ["C02_entry_points_encode", "C02_entry_points_decode", "C02_encode_default_t",
             "C02_exception_parity_encode", "C02_exception_parity_decode", "C02_bytes_verbatim",
             "C02_roundtrip", "C02_valid_json", "C02_cache_transparent", "C02_refuted_api_bytes"]
@@ -479,6 +481,7 @@ def correspond(run: lib.Run):
     # the JSON layer itself (character-level writer / reader model, C02Json) and the end-to-end instance over the core
     # value model (C02Bridge: C01 round trip + JSON theorem => codec round trip with no hypothesis on the JSON layer)
     lib.run_tie(run, jsontie)
+    lib.run_tie(run, capstonetie, example=False)      # Capstone_C02_roundtrip (the example replay runs under C01)
 
 
 def plain_json(w) -> bool:
